@@ -147,6 +147,64 @@ def cli(ctx, tmp, count):
                 ctx.fail("CLI marked %r, the offending line %d is %r" % (marked[:1], line, src.split("\n")[line - 1]), desc)
 
 
+def every_error_class(ctx, tmp):
+    """one small model per error class of the package (Generated/ErrTable.lean lists them; Props/C13Err.lean says what the model takes them for): the class
+    raised must be the one the model is built to raise, it must be an MPilot error at from_source()/run(), and the command-line tool (in-process) must
+    report it - non-zero exit, no escaping exception, its problem/solution text - whichever class it is"""
+    from mpilot.program import Program, EEMS_CSV_LIBRARIES
+    from mpilot.exceptions import MPilotError
+    import mpilot.cli.mpilot as cli
+    for f, text in (("e_in.csv", "a,b,z\n1,2,0\n3,4,0\n"), ("e_in3.csv", "a\n1\n2\n3\n"), ("e_bad.csv", "a\n1\nx\n"), ("e_empty.csv", "")):
+        open(os.path.join(tmp, f), "w").write(text)
+    R = 'A = EEMSRead(InFileName = "e_in.csv", InFieldName = a)\nB = EEMSRead(InFileName = "e_in.csv", InFieldName = b)\n'
+    F = R + 'FA = CvtToFuzzy(InFieldName = A)\nFB = CvtToFuzzy(InFieldName = B)\n'
+    models = [
+        ("CommandDoesNotExist", R + 'X = Nope(P = 1)\n'), ("DuplicateResult", R + 'A = Copy(InFieldName = B)\n'), ("MissingParameters", R + 'X = Copy()\n'),
+        ("NoSuchParameter", R + 'X = Copy(InFieldName = A, Bogus = 1)\n'), ("ParameterNotValid", R + 'X = Normalize(InFieldName = A, StartVal = abc)\n'),
+        ("PathDoesNotExist", 'X = EEMSRead(InFileName = "e_nofile.csv", InFieldName = a)\n'), ("ResultDoesNotExist", R + 'X = Copy(InFieldName = Nowhere)\n'),
+        ("ResultTypeNotValid", R + 'W = EEMSWrite(OutFileName = "e_out.csv", OutFieldNames = [A])\nX = Copy(InFieldName = W)\n'),
+        ("ResultNotFuzzy", R + 'X = FuzzyNot(InFieldName = A)\n'), ("ResultIsFuzzy", F + 'X = CvtToFuzzy(InFieldName = FA)\n'),
+        ("RecursiveModelStructure", 'X = Copy(InFieldName = Y)\nY = Copy(InFieldName = X)\n'),
+        ("EmptyInputs", R + 'X = Sum(InFieldNames = [])\n'),
+        ("MixedArrayShapes", R + 'C = EEMSRead(InFileName = "e_in3.csv", InFieldName = a)\nX = Sum(InFieldNames = [A, C])\n'),
+        ("MismatchedWeights", R + 'X = WeightedSum(InFieldNames = [A, B], Weights = [1])\n'),
+        ("InvalidThresholds", R + 'X = CvtToFuzzy(InFieldName = A, TrueThreshold = 2, FalseThreshold = 2)\n'),
+        ("MixedArrayLengths", R + 'X = NormalizeCurve(InFieldName = A, RawValues = [1, 2, 3], NormalValues = [0, 1])\n'),
+        ("DuplicateRawValues", R + 'X = NormalizeCurve(InFieldName = A, RawValues = [1, 1], NormalValues = [0, 1])\n'),
+        ("InvalidNumberToConsider", F + 'X = FuzzySelectedUnion(InFieldNames = [FA, FB], TruestOrFalsest = Truest, NumberToConsider = 3)\n'),
+        ("InvalidTruestOrFalsest", F + 'X = FuzzySelectedUnion(InFieldNames = [FA, FB], TruestOrFalsest = Sometimes, NumberToConsider = 1)\n'),
+        ("InvalidDataFile", 'X = EEMSRead(InFileName = "e_bad.csv", InFieldName = a)\n'), ("EmptyDataFile", 'X = EEMSRead(InFileName = "e_empty.csv", InFieldName = a)\n'),
+        ("InvalidDirection", R + 'X = CvtToBinary(InFieldName = A, Threshold = 2, Direction = Sideways)\n'),
+    ]
+    for want, src in models:
+        exc = None
+        try:
+            Program.from_source(src, libraries=EEMS_CSV_LIBRARIES, working_dir=tmp).run()
+        except BaseException as e:      # noqa
+            exc = e
+        got = type(exc).__name__ if exc is not None else "no error"
+        ctx.case("class " + want, sample={"class": want, "raised": got})
+        ctx.count("error_class:%s" % want)
+        desc = {"source": src, "raised": got, "expected_class": want}
+        if exc is not None and not isinstance(exc, (MPilotError, SyntaxError)):
+            ctx.fail("%s escaped from from_source()/run(): neither a syntax error nor an MPilot error (the model raises %s here)" % (got, want), desc)
+            continue
+        if got != want:
+            ctx.disagree("error-class", desc, got, want)
+        # the tool on the same file
+        path = os.path.join(tmp, "e_model.mpt")
+        open(path, "w").write(src)
+        code, err, crash = clicorr._invoke(cli.main, ["eems-csv", path])
+        desc2 = dict(desc, exit=code, stderr=err[-400:], escaped=crash)
+        if exc is not None and isinstance(exc, MPilotError):
+            if crash != "-":
+                ctx.fail("the command-line tool died with %s on a model that fails with the MPilot error %s" % (crash, got), desc2)
+            elif code == 0:
+                ctx.fail("the command-line tool exited 0 although the model fails with %s" % got, desc2)
+            elif str(exc) not in err:
+                ctx.fail("the command-line tool did not print the problem/solution text of %s to standard error" % got, desc2)
+
+
 def deep_models(ctx):
     """dependency chains deeper than the interpreter's recursion limit, written inputs-first, dependents-first and shuffled, as direct and as
     list references: whatever the outcome (the pinned code exhausts the stack while executing and wraps that), no RecursionError or other
@@ -259,7 +317,7 @@ def strict_caller(ctx, tmp):
 
 
 def run(ctx):
-    ctx.check_proofs(["MPilot.Props.C13", "MPilot.Props.C13Cli"])
+    ctx.check_proofs(["MPilot.Props.C13", "MPilot.Props.C13Cli", "MPilot.Props.C13Err"])
     model = common.Model()
     rng = ctx.rng
     tmp = common.tmpdir("mpv_c13_")
@@ -326,6 +384,7 @@ def run(ctx):
     csv_faults(ctx, tmp)
     strict_caller(ctx, tmp)
     cli(ctx, tmp, 12 if ctx.thorough else 9)
+    every_error_class(ctx, tmp)
     clicorr.formatting(ctx, model, ctx.budget(60, 3000))         # the tool's reporting against Model/Cli (Props/C13Cli.lean)
     return ctx.finish(
         rule="(a) every command x parameter x raw kinds (numbers, booleans, strings incl. non-ASCII/backslash/quote, names of results of every kind, "
